@@ -31,6 +31,7 @@ RULE = (
     "value is one some getter run returned; afterwards accesses are served from the cache. Non-trivial: "
     "(sequential) >=1 cached hit and >=1 del or failure; (concurrent) >=2 awaiters overlapped a computation; "
     "distinct = distinct (scenario, interleaving)."
+    " Extensions of rounds 9-12: getter values that all compare equal, or None from one designated run; clause: what is cached after a deletion is the value of a computation begun after it."
 )
 COMPONENTS = dict(COMPONENTS_AIO, models=["attribute-slot model of cached_property (sequential histories)"])
 ASSUMPTIONS = [
